@@ -16,6 +16,7 @@ from ..core import Family, Result, viol, HarnessError
 from ..bfs import BFSFamily
 from ..refs import expr as R
 from .. import chooser
+from .. import libstate
 
 import mitxgraders.helpers.calc.expressions as X
 from mitxgraders.helpers.calc import exceptions as CE
@@ -188,6 +189,16 @@ FULL_V = {'x': 2.0, 'y': 3.0, 'X': 5.0, 'f': 7.0, 'xy': 11.0}
 FULL_F = {'f': lambda t: t + 1, 'sin': math.sin}
 FULL_S = {'k': 1000.0}
 MISS_V = {'x': 2.0}
+ARRAY_STRS = ['[x, y]', '1e999', 'x+y', 'x']       # the strings on which the array / infinity variants of eval are explored
+
+
+def ARR_V():
+    from mitxgraders.helpers.calc.math_array import MathArray
+    return {'x': MathArray([1.0, 2.0]), 'y': MathArray([3.0, 4.0]), 'X': 5.0, 'f': 7.0, 'xy': 11.0}
+
+
+def _meta(m):
+    return (sorted(m.variables_used), sorted(m.functions_used), sorted(m.suffixes_used), getattr(m, 'max_array_dim_used', None))
 
 
 class ParserCtx(object):
@@ -202,13 +213,22 @@ def observe_call(op, s):
             return ('sets', tuple(sorted(map(str, x)) for x in map(tuple, sets_of(p))))
         if op == 'eval':
             v, m = X.evaluator(s, FULL_V, FULL_F, FULL_S)
-            return ('val', repr(v), sorted(m.variables_used), sorted(m.functions_used), sorted(m.suffixes_used))
+            return ('val', repr(v)) + _meta(m)
+        if op == 'evalarr':
+            v, m = X.evaluator(s, ARR_V(), FULL_F, FULL_S, max_array_dim=2)       # x, y vectors: [x, y] is a matrix
+            return ('val', repr(v)) + _meta(m)
+        if op == 'evaldim1':
+            v, m = X.evaluator(s, FULL_V, FULL_F, FULL_S, max_array_dim=1)        # scalars, vectors allowed, matrices not
+            return ('val', repr(v)) + _meta(m)
+        if op == 'evalinf':
+            v, m = X.evaluator(s, FULL_V, FULL_F, FULL_S, allow_inf=True)
+            return ('val', repr(v)) + _meta(m)
         if op == 'evalnosuffix':
             v, m = X.evaluator(s, FULL_V, FULL_F, {})        # same names in scope, but no suffixes defined
-            return ('val', repr(v), sorted(m.variables_used), sorted(m.functions_used), sorted(m.suffixes_used))
+            return ('val', repr(v)) + _meta(m)
         if op == 'evalmiss':
             v, m = X.evaluator(s, MISS_V, {}, {})
-            return ('val', repr(v), sorted(m.variables_used), sorted(m.functions_used), sorted(m.suffixes_used))
+            return ('val', repr(v)) + _meta(m)
         if op == 'grade':
             def body(ch):
                 g = FormulaGrader(answers='x+y', variables=['x', 'y', 'X'], user_functions={'f': lambda t: t + 1},
@@ -233,22 +253,34 @@ class ParserHistory(BFSFamily):
     level_sync = True
     timeout = 60.0
     rule = ('explicit-state search over call histories on one shared parser: events = {parse, eval (full scope), '
-            'eval (scope lacking names)} [thorough: + FormulaGrader call, DependentSampler construction] x a string '
+            'eval (scope lacking names)} [thorough: + FormulaGrader call, DependentSampler construction] + {eval with '
+            'vector-valued variables, eval with max_array_dim=1, eval with allow_inf} on 4 strings incl. [x, y] and 1e999; x a string '
             'alphabet with valid, space-variant and malformed strings; to closure; transition oracle = same call on a '
             'brand-new parser; state invariant = scratch sets empty and cached sets equal by-construction sets')
 
     def setup(self, tier):
         self.tier = tier
         self.fresh = {}
+        libstate.ensure_snapshot()
 
     def events(self, tier):
         if tier == 'quick':
             ops, strs = ['parse', 'eval', 'evalmiss', 'evalnosuffix'], STRINGS_Q
         else:
             ops, strs = ['parse', 'eval', 'evalmiss', 'evalnosuffix', 'grade', 'dep'], STRINGS_T
-        return [(op, s) for s in strs for op in ops]
+        evs = [(op, s) for s in strs for op in ops]
+        # evaluation variants whose outcome depends on something other than the names in scope: array-valued variables,
+        # the array-dimension limit, allow_inf
+        for s2 in ARRAY_STRS:
+            for op in ['parse', 'eval', 'evalarr', 'evaldim1', 'evalinf']:
+                if (op, s2) not in evs:
+                    evs.append((op, s2))
+        return evs
 
     def build(self, hist):
+        # whatever earlier histories of this worker left in module-level / class-level containers or function caches of the
+        # library is undone first, so that a deviation is attributed to the history that causes it
+        libstate.restore_library_state()
         ctx = ParserCtx()
         ctx.parser = X.MathParser()
         X.PARSER = ctx.parser
@@ -263,12 +295,14 @@ class ParserHistory(BFSFamily):
         cache = tuple(sorted((k, _canon({a: b for a, b in vars(v).items() if a != 'tree'}) if is_expression(v)
                               else ('not-an-expression', type(v).__name__, str(v))) for k, v in p.cache.items()))
         other = _canon({a: b for a, b in vars(p).items() if a not in ('cache', 'grammar')})
-        return (cache, other)
+        # process-wide memory outside the parser (module-level containers, function caches) is part of the state too
+        return (cache, other, libstate.library_state_diff(_canon))
 
     def fresh_obs(self, ev):
         if ev not in self.fresh:
-            X.PARSER = X.MathParser()
-            self.fresh[ev] = observe_call(*ev)
+            with libstate.pristine_library():
+                X.PARSER = X.MathParser()
+                self.fresh[ev] = observe_call(*ev)
         return self.fresh[ev]
 
     def check_transition(self, hist, ev, ctx):
